@@ -204,6 +204,18 @@ def build_catalogue():
     C.append(Entry('transform.mat_from_rph', lambda f: dict(r=traj_table()[['roll', 'pitch', 'heading']] if f == 'frame' else
                                                             A(traj_table()[['roll', 'pitch', 'heading']].values, f)),
                    lambda a: transform.mat_from_rph(a['r']), ('array', 'list', 'frame')))
+    # single (1-D / scalar) inputs take their own code paths
+    C.append(Entry('transform.mat_from_rph[single]', lambda f: dict(r=A([10.0, -20.0, 30.0], f)),
+                   lambda a: transform.mat_from_rph(a['r']), AF))
+    C.append(Entry('transform.lla_to_ecef[single]', lambda f: dict(l=A([-33.0, 151.0, 100.0], f)),
+                   lambda a: (transform.lla_to_ecef(a['l']), transform.ecef_to_lla(np.array([-4.6e6, 2.5e6, -3.4e6]))), AF))
+    C.append(Entry('transform.perturb_lla[single]', lambda f: dict(l=A([-33.0, 151.0, 100.0], f), d=A([10.0, -5.0, 2.0], f)),
+                   lambda a: (transform.perturb_lla(a['l'], a['d']), transform.compute_lla_difference(a['l'], [-33.0001, 151.0, 90.0])), AF))
+    C.append(Entry('earth[scalar]', lambda f: dict(), lambda a: (earth.principal_radii(-33.0, 100.0), earth.gravity(-33.0, 100.0),
+                                                                  earth.gravity_n(-33.0, 100.0), earth.curvature_matrix(-33.0, 100.0),
+                                                                  earth.rate_n(-33.0), transform.mat_en_from_ll(-33.0, 151.0),
+                                                                  earth.gravitation_ecef([-33.0, 151.0, 100.0]))))
+    C.append(Entry('util.skew_matrix[single]', lambda f: dict(v=A([1.0, -2.0, 0.5], f)), lambda a: util.skew_matrix(a['v']), AF))
     C.append(Entry('transform.mat_to_rph', lambda f: dict(m=A(np.array([[[0.0, -1, 0], [1, 0, 0], [0, 0, 1]], np.eye(3)]), f)),
                    lambda a: transform.mat_to_rph(a['m']), AF))
     # ---- util
@@ -576,6 +588,35 @@ def run_case(case):
         calls += 1
         if digest(res) != base[form]:
             v('c19-repeat-differs:' + g.name, '%s (%s form): second call differs from the first' % (g.name, form))
+    # 2b. the SAME argument objects again after their contents changed in place: the result must follow the contents
+    # (a memo keyed by, or aliasing, the caller's array would return the stale result)
+    import copy
+    def perturb(args):
+        changed = False
+        for k_, val in args.items():
+            if isinstance(val, np.ndarray) and val.dtype.kind == 'f' and val.flags.writeable and k_ not in g.skip:
+                val += 1e-3 * (1.0 + np.abs(val)) * (val != 0)
+                changed = True
+        return changed
+
+    for form in g.forms:
+        try:
+            a_ref = g.make(form)
+            if any(isinstance(x_, np.random.RandomState) for x_ in a_ref.values()):
+                continue                               # a consumed random stream is documented state
+            if not perturb(a_ref):
+                continue
+            r_ref = g.call(copy.deepcopy(a_ref))       # reference for the changed contents, computed first
+            a1 = g.make(form)
+            g.call(a1)                                 # call with the original contents ...
+            perturb(a1)                                # ... change the caller's arrays in place ...
+            r_same = g.call(a1)                        # ... and call again with the very same objects
+            calls += 3
+            if digest(r_same) != digest(r_ref):
+                v('c19-stale-result-for-same-object:' + g.name, '%s (%s form): after the argument arrays were changed in '
+                  'place, calling again with the same objects does not follow the new contents' % (g.name, form))
+        except Exception:  # noqa  (a perturbed argument may be invalid for the entry: nothing to compare then)
+            pass
     # 3. g after every f (all ordered pairs, accumulating history)
     form_g = g.forms[0]
     history = []
